@@ -22,7 +22,14 @@ pub fn e(v: &[usize]) {
     if WORLD.with(|w| w.borrow().ended) {
         return;
     }
-    exec::ev(v.iter().map(|x| *x as u64).collect())
+    exec::ev(v.iter().map(|x| *x as u64).collect());
+    if exec::current().0.borrow().log.len() > 20_000 {
+        // a script that never lets go of the thread (a user error the properties exclude):
+        // give up on the case instead of looping forever
+        WORLD.with(|w| w.borrow_mut().ended = true);
+        exec::current().0.borrow_mut().log.push(vec![ev::BUDGET]);
+        panic!("event budget exhausted");
+    }
 }
 
 // ---------------------------------------------------------------------------------------------
@@ -235,11 +242,13 @@ impl<const TY: u8> SA<TY>
                     let ent = crate::spawn::spawn_actor(spec);
                     self.add_child(ctx, *ty, ent);
                 }
-                Act::SendChildren { ty, v } => match ty {
+                Act::SendChildren { ty, v } => {
+                    e(&[ev::BCAST_BEGIN as usize, a, *ty as usize]);
+                    match ty {
                     1 => ctx.send_to_children(Child::<1> { parent: a, v: *v, o: None }),
                     2 => ctx.send_to_children(Child::<2> { parent: a, v: *v, o: None }),
                     _ => {}
-                },
+                }},
                 Act::Subscribe(topic) => {
                     let o = exec::fresh_oid();
                     e(&[ev::SUBSCRIBE as usize, a, *topic as usize, o]);
